@@ -19,7 +19,7 @@ use proptest::prelude::*;
 use serde::{Deserialize, Serialize};
 use std::collections::{BTreeMap, BTreeSet};
 use std::sync::{Arc, Mutex};
-use std::time::Duration;
+use std::time::{Duration, Instant};
 use vh_engine::{Check, Known, Section, Verdict};
 
 const KEY_CLOSEMID: &str = "C13:failover:http-connection-closed-mid-response-stops-chain";
@@ -689,6 +689,97 @@ fn runtime() -> tokio::runtime::Runtime {
     tokio::runtime::Builder::new_current_thread().enable_all().build().expect("tokio runtime")
 }
 
+// ---------------------------------------------------------------------------
+// time-to-live is counted from the fetch, not from the last hit
+// ---------------------------------------------------------------------------
+
+#[derive(Debug, Clone, Serialize, Deserialize)]
+struct TtlCase {
+    /// 0 versions, 1 cdns, 2 bgdl
+    class: u8,
+    cache_dir: bool,
+    ttl_ms: u16,
+    /// a second query (expected: a cache hit) this long after the first answer
+    hit_after_ms: u16,
+    content_seed: u64,
+}
+
+/// "A successful answer is served from the cache until its time-to-live ends": an answer fetched
+/// at t0 must not be served at t2 > t0 + TTL, even if it was hit in between. Real time is used,
+/// but only in the sound direction: slowness of the machine can only make t2 later (the verdict
+/// needs the answer to be *still served* after it must have expired); if the intermediate query
+/// was not a hit (because the machine was too slow) the case is inconclusive, not a failure.
+async fn ttl_restart(c: &TtlCase) -> Result<Verdict, String> {
+    let sh = Arc::new(Shared::default());
+    let good = HttpBeh::Answer { doc: 3, rows: 2, chunked: false };
+    let hs = Slot::start(0, AnyBeh::Http(good.clone()), sh.clone(), c.content_seed).await.map_err(|e| format!("mock start: {e}"))?;
+    let ps = Slot::start(1, AnyBeh::Http(good.clone()), sh.clone(), c.content_seed).await.map_err(|e| format!("mock start: {e}"))?;
+    let ts = Slot::start(2, AnyBeh::Tcp(TcpBeh::Refuse), sh.clone(), c.content_seed).await.map_err(|e| format!("mock start: {e}"))?;
+    let tmp = if c.cache_dir { Some(tempfile::tempdir().map_err(|e| format!("tempdir: {e}"))?) } else { None };
+    let ttl = Duration::from_millis(c.ttl_ms as u64);
+    let cfg = ClientConfig {
+        tact_https_url: format!("http://127.0.0.1:{}", hs.port),
+        tact_http_url: format!("http://127.0.0.1:{}", ps.port),
+        ribbit_url: format!("tcp://127.0.0.1:{}", ts.port),
+        cache_config: CacheConfig { cache_dir: tmp.as_ref().map(|t| t.path().join("cache")), ribbit_ttl: ttl, cdn_ttl: ttl, config_ttl: ttl, ..CacheConfig::default() },
+        ..ClientConfig::default()
+    };
+    let client = RibbitTactClient::new(cfg).map_err(|e| format!("{e:?}"))?;
+    let ep = endpoints(c.class % 3)[0];
+    let v = Verdict::pass().nontrivial(true);
+    if client.query(ep).await.is_err() {
+        return Ok(v.class("inconclusive:first-query-failed"));
+    }
+    let stored_by = Instant::now(); // the entry was stored no later than now
+    let n1 = sh.len();
+    tokio::time::sleep(Duration::from_millis(c.hit_after_ms as u64)).await;
+    if client.query(ep).await.is_err() {
+        return Ok(v.class("inconclusive:second-query-failed"));
+    }
+    let n2 = sh.len();
+    if n2 != n1 {
+        // the machine was too slow (the entry had expired already): nothing can be concluded
+        return Ok(v.class("inconclusive:second-query-was-not-a-hit"));
+    }
+    // wait until the entry fetched by the first query has certainly expired
+    let deadline = stored_by + ttl + Duration::from_millis(300);
+    let now = Instant::now();
+    if deadline > now {
+        tokio::time::sleep(deadline - now).await;
+    }
+    let waited = stored_by.elapsed();
+    if client.query(ep).await.is_err() {
+        return Ok(v.class("inconclusive:third-query-failed"));
+    }
+    let n3 = sh.len();
+    drop((hs, ps, ts));
+    if n3 == n2 {
+        return Ok(v.with_fail(
+            "C13:cache:expired-answer-served:hit-inside-ttl-restarts-the-time-to-live",
+            format!(
+                "{ep}: TTL {} ms; fetched once, hit after {} ms, and {} ms after the fetch (TTL over) the query is still answered from the cache without any request",
+                c.ttl_ms,
+                c.hit_after_ms,
+                waited.as_millis()
+            ),
+        ));
+    }
+    Ok(v.class("refetched-after-ttl"))
+}
+
+fn check_ttl(c: &TtlCase) -> Verdict {
+    let rt = runtime();
+    let r = rt.block_on(ttl_restart(c));
+    drop(rt);
+    match r {
+        Err(m) => {
+            infra(m);
+            Verdict::pass()
+        }
+        Ok(v) => v,
+    }
+}
+
 fn check_scenario(c: &Case, known: &Known) -> Verdict {
     let rt = runtime();
     let r = rt.block_on(scenario(c, known));
@@ -827,7 +918,7 @@ fn rows_st() -> impl Strategy<Value = u8> {
 fn http_st(stall: bool) -> BoxedStrategy<HttpBeh> {
     let base = prop_oneof![
         5 => (any::<u8>(), rows_st(), any::<bool>()).prop_map(|(doc, rows, chunked)| HttpBeh::Answer { doc, rows, chunked }),
-        4 => (proptest::sample::select(vec![500u16, 502, 503, 504, 429, 429]), proptest::option::of(0u16..2), proptest::bool::weighted(0.25))
+        4 => (proptest::sample::select(vec![500u16, 502, 503, 504, 501, 505, 507, 508, 511, 520, 599, 429, 429, 429]), proptest::option::of(0u16..2), proptest::bool::weighted(0.25))
             .prop_map(|(code, retry_after, bpsv_body)| HttpBeh::Status { code, retry_after: if code == 429 || code == 503 { retry_after } else { None }, bpsv_body }),
         3 => (proptest::sample::select(vec![400u16, 401, 403, 404, 410]), proptest::bool::weighted(0.25))
             .prop_map(|(code, bpsv_body)| HttpBeh::Status { code, retry_after: None, bpsv_body }),
@@ -998,6 +1089,23 @@ fn main() {
         }
         ck.finish();
     }
+
+    ck.run(
+        Section::enumerate(
+            "ttl-counted-from-fetch",
+            "versions/cdns/bgdl x memory cache / cache directory x TTL {1200, 2000} ms with one hit inside the TTL: the answer must be refetched once the TTL counted from the FETCH is over",
+            || {
+                Box::new((0u8..3).flat_map(|class| {
+                    [false, true].into_iter().flat_map(move |cache_dir| {
+                        [(1200u16, 500u16), (2000, 1300)].into_iter().map(move |(ttl_ms, hit_after_ms)| TtlCase { class, cache_dir, ttl_ms, hit_after_ms, content_seed: 7 + class as u64 })
+                    })
+                }))
+            },
+            check_ttl,
+        )
+        .shards(12),
+    );
+    drain_infra(&mut ck);
 
     let known = ck.known().clone();
     let k1 = known.clone();
